@@ -107,7 +107,11 @@ def asm_programs(rng, n):
         called = [nm for nm in names if rng.random() < 0.7]
         for j, nm in enumerate(called):
             prog += [A.ref('LDAP', 'r%d' % j), A.ref('STAM', 'tmp'), A.ref('BR', nm), A.lab('r%d' % j)]
-        prog += [A.imm('LDAC', rng.randint(0, 99)), A.ref('LDBM', 'sp'), A.imm('STAI', 2), A.imm('LDAC', 0), A.opr('SVC')]
+        fault = rng.random() < 0.3          # the run ends in an instruction HexISA does not define (hexsim gives up): every line up to it is owed
+        if fault:
+            prog += [A.imm('LDAC', 5), A.ref('BR', 'bad'), A.lab('bad'), A.data(rng.choice([0xD7, 0xD4, 0xC0, 0xDF]))]
+        else:
+            prog += [A.imm('LDAC', rng.randint(0, 99)), A.ref('LDBM', 'sp'), A.imm('STAI', 2), A.imm('LDAC', 0), A.opr('SVC')]
         order = list(names); rng.shuffle(order)
         for nm in order:
             prog.append(A.lab(nm, rng.choice(['PROC', 'FUNC'])))
@@ -138,7 +142,7 @@ def asm_family(chk, d, rng, tier):
     sres = vlib.read_ndjson(of)
     recs, keep = [], []
     for (c, r), sr in zip(live, sres):
-        if sr['status'] != 'exit':
+        if sr['status'] not in ('exit', 'throw'):
             continue
         lprog, lines, total = asmlib.parse_listing(r['listing'])
         procs = [dct['n'] for dct in lprog if dct['k'] == 'lab' and dct.get('kind') in ('FUNC', 'PROC')]
@@ -265,6 +269,26 @@ def run(tier, replay=None):
                 if not chk.cov.get("unwalkable_example"):
                     chk.set("unwalkable_example", {"id": c['id'], "why": v['why']})
         binfmt(chk, keep, {r_['id']: r_ for r_ in res if 'dbg' in r_}, d)
+        # the xcmp EXECUTABLE, with and without its reporting option: the file it writes (symbol table included) is the one judged above
+        import corpus
+        tdir = corpus.tools(); byid = {r_['id']: r_ for r_ in res if 'dbg' in r_}
+        nfile = 0
+        for c in [c for c in keep if c['id'] in byid and 'prog' in c and not c['id'].startswith('asm')][:(25 if tier == "quick" else 400)]:
+            r_ = byid[c['id']]
+            want = struct.pack('<I', r_['hdr']) + bytes(r_['img']) + bytes(r_['dbg'])
+            wd = os.path.join(d, "xexe"); shutil.rmtree(wd, ignore_errors=True); os.makedirs(wd)
+            open(os.path.join(wd, "p.x"), "wb").write(c['src'].encode('latin-1'))
+            for opts in ([], ["--memory-info"]):
+                p = vlib.sh([os.path.join(tdir, "xcmp"), "p.x", "-o", "p.bin"] + opts, cwd=wd, timeout=120)
+                got = open(os.path.join(wd, "p.bin"), "rb").read() if os.path.exists(os.path.join(wd, "p.bin")) else b""
+                nfile += 1
+                if p.returncode != 0 or got != want:
+                    where = "debug tables" if got[:4 + len(r_['img'])] == want[:4 + len(r_['img'])] else "image"
+                    chk.violation("exe-file:%s:%s" % ("".join(opts) or "plain", where),
+                                  "xcmp %s p.x -o p.bin (%s) writes a file whose %s differ from the binary whose symbol table and trace were validated (%d bytes / %d bytes)"
+                                  % (" ".join(opts), c['id'], where, len(got), len(want)), {"p.x": c['src'].encode('latin-1')})
+                os.remove(os.path.join(wd, "p.bin")) if os.path.exists(os.path.join(wd, "p.bin")) else None
+        chk.set("executable_files_compared", nfile)
         chk.add("states", nlines); chk.add("transitions", nlines)
         chk.set("programs_traced", len(recs)); chk.set("verdicts", dict(cnt))
         chk.set("trace_lines_checked", nlines); chk.set("procedure_entries_checked", nent)
